@@ -51,7 +51,9 @@ DoChallenge == \E d \in Devices : Challenge(d)
 DoHostRespond == \E d \in Devices, c \in HostCreds, b \in Beacons : HostRespond(d, c, b)
 DeliverSeen == \E d \in Devices, r \in net : Deliver(d, r)                                   \* relay / replay
 DeliverSpliced == \E d \in Devices, r0 \in net : \E r \in Splices(binds, r0) \ {r0} : Deliver(d, r)
-DeliverForged == \E d \in Devices, r0 \in Forgeries(binds) : \E r \in Splices(binds, r0) \cup {r0} : Deliver(d, r)
+\* forgeries: signed by the intruder for whatever (beacon, uuid, challenge) he likes, presented with any credential - his own or the
+\* host's, intact or altered (the full splice space of forgeries is covered by the lemma NeverForOther of DatGen)
+DeliverForged == \E d \in Devices, r0 \in Forgeries(binds), c \in Creds, i \in BOOLEAN : Deliver(d, [r0 EXCEPT !.dc = DcTerm(c, i)])
 Next == DoChallenge \/ DoHostRespond \/ DeliverSeen \/ DeliverSpliced \/ DeliverForged
 Spec == Init /\ [][Next]_vars
 
